@@ -11,7 +11,7 @@ from concurrent.futures import ProcessPoolExecutor
 import sexpr
 
 FMTS = (32, 64, 80)
-MAX_RUNS = 96
+MAX_RUNS = 400
 
 
 def generic_vals(n):
@@ -79,6 +79,21 @@ def candidates_for_flip(cmp_rec, vals, n):
         cands.append(g)
         # negatives
         cands.append([-x for x in g])
+        # second half of the inputs (anti)parallel to the first half, several lengths: drives
+        # comparisons that only rounding decides (cosine slightly beyond +-1)
+        half = n // 2
+        if half and n == 2 * half:
+            x = 987654321
+            for k in range(24):
+                a = []
+                for _ in range(half):
+                    x = (x * 6364136223846793005 + 1442695040888963407) % (1 << 64)
+                    a.append(0.25 + (x >> 11) / float(1 << 53) * 7.0)
+                sc = (3.0 + k * 0.37) * (1.0 if k % 2 == 0 else -1.0)
+                cands.append(a + [sc * t for t in a])
+                cands.append([sc * t for t in a] + a)
+            cands.append(g[:half] + [-4.0 * t for t in g[:half]])
+            cands.append(g[:half] + [4.0 * t for t in g[:half]])
         # one input zero at a time
         for i in sorted(used)[:12]:
             v = list(vals)
